@@ -235,4 +235,24 @@ theorem upscaler_i8_wrap_defect :
   · decide
   · decide
 
+
+/-! ## 4. text -/
+
+/-- **Integer text round trip, every width and signedness**: formatting any value of an
+integer type with range `[lo, hi]` (`lexical_core::write`) and parsing the text back as the
+same type (`parser_primitive!` on the atoi contract: optional sign, checked digit
+accumulation, white-space trimming) returns the value. -/
+theorem int_text_roundtrip (lo hi x : Int) (hlo : lo ≤ 0) (hhi : 0 ≤ hi) (hx : lo ≤ x ∧ x ≤ hi) :
+    parseInt lo hi (formatInt x) = some x :=
+  parseInt_formatInt lo hi x hlo hhi hx
+
+example : parseInt (-128) 127 (formatInt (-128)) = some (-128) ∧
+    parseInt 0 18446744073709551615 (formatInt 18446744073709551615) = some 18446744073709551615 ∧
+    parseInt (-128) 127 "128".toList = none := by decide
+
+/-- **Boolean text round trip** (`true`/`false` written by the formatter are accepted by
+`cast_single_string_to_boolean`). -/
+theorem bool_text_roundtrip (b : Bool) : parseBool (formatBool b) = some b := by
+  cases b <;> decide
+
 end ArrowModel.C13
